@@ -44,6 +44,8 @@ func checkC01(p *load.Program, r *kit.Report) {
 	importRules(p, r, "C11", "Clean saves a side branch and prunes it from memory: what the repository reports for pruned heights afterwards is what Branch.Save wrote", 2,
 		func(o *kit.Obligation) bool { return strings.HasPrefix(o.Construct, "Branch.Save") }, "MERGE-SHAPE")
 	importRules(p, r, "C09", "Hash(h)/Header(h) must answer from the tip's in-memory ancestry before the header files, and only up to the tip: the files still hold the previous best chain until the next save", 6, nil, "TIP-BOUND")
+	importRules(p, r, "C10", "Hash(h)/Header(h) fall back to the main header files for heights the tip's ancestry no longer holds in memory: prune must keep the fork point of every side branch (a deep old fork can still overtake), or those heights are answered from the abandoned chain's files", 1,
+		func(o *kit.Obligation) bool { return strings.HasPrefix(o.Construct, "prune/") }, "COVER-ALL")
 	r.NotDecided = "that the tree built by a particular history has the cumulative work a model assigns; arrival-order independence; the effect of Clean/Save/Load in between (C10/C11); numerical work values."
 	r.Rule("ARGMAX", "Branches.Longest replaces the incumbent exactly on the edge where the candidate's Last().AccumulatedWork compares greater (or greater-or-equal) through (*big.Int).Cmp; the incumbent is kept otherwise", 1)
 	r.Rule("WRITERS", "every store to Repository.longest takes its value from Branches.Longest(), from a root branch built by NewBranch(nil, …) or from Consolidate() of the previous longest", 7)
@@ -52,6 +54,11 @@ func checkC01(p *load.Program, r *kit.Report) {
 	r.Rule("GUARD-DOM", "every append to Branch.headers of a submitted header is behind last.Hash.Equal(&header.PrevBlock); AtHeight indexes headers[height-parentHeight-offset] and delegates to parent.AtHeight(height) exactly when height <= parentHeight", 3)
 	r.Rule("PROVENANCE", "Height/LastHash/LastTime/AccumulatedWork/Hash/header read the tip through repo.longest", 6)
 
+	r.Rule("ATOMIC-SWITCH", "no helper that ProcessHeader (or any other entry point) calls with the repository mutex held releases that mutex: selecting the most-work branch and storing it as the tip stay one critical section", 5)
+	{
+		reach := staticReach(p.Func(H, "Repository.ProcessHeader"), p.Func(H, "Repository.MarkHeaderInvalid"), p.Func(H, "Repository.Clean"), p.Func(H, "Repository.Load"), p.Func(H, "Repository.Save"))
+		checkNoReleaseOfCallerLock(p, r, "ATOMIC-SWITCH", func(f *ssa.Function) bool { return reach[f] })
+	}
 	r.Rule("LINK-FIRST", "Branch.Link (load) attaches a branch to the first branch of the oldest-first list that knows its previous hash and stops there: Find answers through ancestors, so a later match is an older sibling, not the parent", 1)
 	checkLinkFirst(p, r, "LINK-FIRST")
 
